@@ -6,7 +6,7 @@ package rules
 // certificate pointers, view numbers and certificate view labels), drives a fresh instance of each
 // of the three rulesets over a real blockchain.Blockchain through a sequence of events
 //   V: VoteRule(view, ProposeMsg{Block, AggregateQC})       (what Voter.Verify does)
-//   C: Store(block); CommitRule(block)                      (what Committer.TryCommit does)
+//   C: Store(block); CommitRule(block); on a commit, PruneToHeight  (what Committer.TryCommit does)
 //   S: Store(block)                                         (a block that arrived by a fetch)
 //   N: the sender's RequestBlock now finds exactly the given blocks (Get fetches and stores them)
 //   Q: which blocks are stored (Blockchain.LocalGet)
@@ -119,6 +119,8 @@ var c04Gallina = [3]string{"Chained", "Fast", "Simple"}
 
 type c04Runner struct {
 	rs        int
+	committed *hotstuff.Block // what ViewStates.CommittedBlock() would hold
+	pruned    int
 	factoryOK bool // rules.New(name) returned the ruleset of that name
 	chainLen  int
 	sender    *c04Sender
@@ -193,16 +195,50 @@ func (r *c04Runner) vote(view uint64, p hotstuff.ProposeMsg) (res bool, panicked
 	return r.sh.VoteRule(hotstuff.View(view), p), nil
 }
 
+// commit is Committer.TryCommit as far as the block store is concerned: Store, CommitRule and,
+// when a block is returned, Committer.commit: the walk from that block down to the last committed
+// block along parent links (it must succeed; only locally stored blocks are used here so that no
+// fetch happens outside the rules) followed by Blockchain.PruneToHeight(committed, block.View()).
+// Pruning must not make any stored block unavailable to later rule evaluations.
 func (r *c04Runner) commit(b *hotstuff.Block) (res *hotstuff.Block, panicked any) {
 	defer func() { panicked = recover() }()
 	r.chain.Store(b)
 	switch r.rs {
 	case 0:
-		return r.ch.CommitRule(b), nil
+		res = r.ch.CommitRule(b)
 	case 1:
-		return r.fh.CommitRule(b), nil
+		res = r.fh.CommitRule(b)
+	default:
+		res = r.sh.CommitRule(b)
 	}
-	return r.sh.CommitRule(b), nil
+	if res != nil {
+		r.afterCommit(res)
+	}
+	return res, nil
+}
+
+func (r *c04Runner) afterCommit(b *hotstuff.Block) {
+	if r.committed == nil {
+		r.committed = hotstuff.GetGenesis()
+	}
+	// commitInner: every block between the committed block and b must be there
+	newCommitted := r.committed
+	if b.View() > r.committed.View() {
+		for cur := b; cur.View() > r.committed.View(); {
+			p, ok := r.chain.LocalGet(cur.Parent())
+			if !ok {
+				return // "failed to locate block": commit returns before pruning
+			}
+			cur = p
+		}
+		newCommitted = b
+	}
+	r.committed = newCommitted
+	if b.View() > 1<<16 {
+		return // PruneToHeight iterates over every view up to the height: not run for the huge views of the boundary streams
+	}
+	r.pruned++
+	r.chain.PruneToHeight(r.committed, b.View())
 }
 
 // ---------------------------------------------------------------- the published rules (reference)
@@ -449,14 +485,31 @@ func c04Execute(v *verifOut, s *verifStream, run c04Run, rs int) {
 	if usesNet {
 		v.Count("runs_with_fetching")
 	}
-	// what is available right now: stored (LocalGet) or obtainable from a peer
+	// what is available right now: every block that was ever stored (the harness' own record:
+	// stored blocks never disappear, whatever the committer prunes), or obtainable from a peer
+	everStored := map[int]bool{c04Gen: true}
 	snapshot := func() {
 		ref.known = map[int]bool{}
 		for i, b := range f.blocks {
-			if _, ok := r.chain.LocalGet(b.b.Hash()); ok || peers[i] {
+			if _, ok := r.chain.LocalGet(b.b.Hash()); ok {
+				everStored[i] = true // presented, or fetched by an earlier rule evaluation
+			}
+			if everStored[i] || peers[i] {
 				ref.known[i] = true
 			}
 		}
+	}
+	// a block the store once held must still be there
+	checkStore := func(step int) {
+		for i, b := range f.blocks {
+			if _, ok := r.chain.LocalGet(b.b.Hash()); ok {
+				everStored[i] = true
+			} else if everStored[i] {
+				fail("store:stored-block-disappeared", fmt.Sprintf("%v was stored and is no longer in the block store", f.describe(i)["block"]), step)
+				return
+			}
+		}
+		v.Oracle(true, "", "", nil)
 	}
 	for step, e := range run.evs {
 		blk := f.blocks[e.blk]
@@ -561,6 +614,7 @@ func c04Execute(v *verifOut, s *verifStream, run c04Run, rs int) {
 		case 'C':
 			snapshot()
 			got, pan := r.commit(blk.b)
+			everStored[e.blk] = true
 			ref.known[e.blk] = true
 			lockBefore := ref.lock
 			want := ref.commitRule(rs, e.blk)
@@ -620,8 +674,12 @@ func c04Execute(v *verifOut, s *verifStream, run c04Run, rs int) {
 					v.Oracle(true, "", "", nil)
 				}
 			}
+			if got != nil {
+				checkStore(step)
+			}
 		case 'S':
 			r.chain.Store(blk.b)
+			everStored[e.blk] = true
 			terms = append(terms, "S "+in.block(blk.b))
 			trace = append(trace, map[string]any{"event": "Store", "block": f.describe(e.blk)})
 		}
@@ -1018,6 +1076,82 @@ func c04Depth(v *verifOut, s *verifStream) {
 	}
 }
 
+// stream "after-prune": equivocation below a later commit.  Main chain M1..M6 (views 1..6) and a fork
+// block F in view k (k = 1..3) on M(k-1), presented after Mk (so it is the block stored last for its
+// view) or before it (control), processed or arrived by fetch; optionally a child X of F in a view
+// above the chain.  The rest of the main chain is then processed, so that commits -- and the
+// committer's pruning, see c04Runner.commit -- run up to and past view k.  THEN proposals leading into
+// the fork (certifying X, whose certificate certifies F: F is the lock target; certifying F itself,
+// also with an AggregateQC) and into the committed chain (controls) are judged and processed, the lock
+// and the stored set are read.  A presented block must still be there.
+func c04AfterPrune(v *verifOut, s *verifStream) {
+	for k := 1; k <= 3; k++ {
+		for fFirst := 0; fFirst < 2; fFirst++ { // 1: F stored before Mk (Mk is the last block of view k)
+			for fKind := 0; fKind < 2; fKind++ { // 0: F processed (C), 1: arrived by fetch (S)
+				for late := 0; late < 2; late++ { // 1: F arrives as late as possible before the commit passes view k
+					for withX := 0; withX < 2; withX++ {
+						for xEarly := 0; xEarly < 2; xEarly++ { // X stored before / after the pruning
+							if withX == 0 && xEarly == 1 {
+								continue
+							}
+							f := c04NewForest()
+							for i := 1; i <= 6; i++ {
+								f.add(i-1, i-1, uint64(i), f.viewOf(i-1))
+							}
+							F := f.add(k-1, k-1, uint64(k), f.viewOf(k-1))
+							X := 0
+							if withX == 1 {
+								X = f.add(F, F, 7, uint64(k))
+							}
+							pOn := F
+							if withX == 1 {
+								pOn = X
+							}
+							pFork := f.add(pOn, pOn, 8, f.viewOf(pOn)) // leads into the fork
+							pF := f.add(F, F, 8, uint64(k))            // certifies F itself
+							pMain := f.add(6, 6, 8, 6)                 // control: on the main chain
+							pMid := f.add(k, k, 8, uint64(k))          // control: on the committed Mk
+							fEv := c04Ev{kind: 'C', blk: F}
+							if fKind == 1 {
+								fEv = c04Ev{kind: 'S', blk: F}
+							}
+							var evs []c04Ev
+							fAt := k // F right after Mk
+							if late == 1 {
+								fAt = k + 1 // fast commits M(k) when M(k+2) is processed; F must be in before that
+							}
+							for i := 1; i <= 6; i++ {
+								if fFirst == 1 && i == k {
+									evs = append(evs, fEv)
+								}
+								evs = append(evs, c04Ev{kind: 'V', blk: i, view: uint64(i)}, c04Ev{kind: 'C', blk: i})
+								if fFirst == 0 && i == fAt {
+									evs = append(evs, fEv)
+									if withX == 1 && xEarly == 1 {
+										evs = append(evs, c04Ev{kind: 'S', blk: X})
+									}
+								}
+							}
+							if withX == 1 && xEarly == 0 {
+								evs = append(evs, c04Ev{kind: 'S', blk: X})
+							}
+							evs = append(evs, c04Ev{kind: 'L'}, c04Ev{kind: 'Q'})
+							for _, p := range []int{pFork, pF, pMain, pMid} {
+								evs = append(evs, c04Ev{kind: 'V', blk: p, view: 8}, c04Ev{kind: 'V', blk: p, view: 8, agg: 1, aggOff: 0})
+							}
+							for _, p := range []int{pFork, pF, pMain} {
+								evs = append(evs, c04Ev{kind: 'C', blk: p}, c04Ev{kind: 'L'})
+							}
+							evs = append(evs, c04Ev{kind: 'Q'})
+							c04ExecuteAll(v, s, c04Run{stream: "after-prune", forest: f, evs: evs})
+						}
+					}
+				}
+			}
+		}
+	}
+}
+
 // c04Shift rebuilds a run with every view (and every certificate label of a non-genesis block) moved up
 // by off: the same shapes around 2^31, 2^32 and 2^63, where a narrowing or signed comparison differs.
 func c04Shift(run c04Run, off uint64) c04Run {
@@ -1247,6 +1381,7 @@ func TestVerifC04(t *testing.T) {
 	v := verifNew("C04")
 	defer v.Close("one run = one ruleset instance driven through VoteRule / Store+CommitRule / Store events over one forest; non-trivial = some vote refused or some non-genesis block committed")
 	s := v.Stream("runs", "mismatches", 1500)
+	c04AfterPrune(v, s) // first: its findings must not be crowded out of the (capped) failure list
 	c04Tiny(v, s)
 	c04Chain(v, s)
 	c04Fork(v, s)
